@@ -16,6 +16,8 @@ ScEnum == {S("enum", 8, 2, 5, v, 0, 9, FALSE, 0, 0) : v \in 0..11}
 ScZone == {S("zone", 8, 1, None, v, 0, 0, FALSE, 8, 11) : v \in 5..14}
           \cup {S("zone", 8, 2, None, v, 0, 0, FALSE, 4, 40) : v \in (0..7 \cup 37..43)}
           \cup {S("zone", 8, 3, None, v, 0, 0, FALSE, 4, 40) : v \in (0..7 \cup 37..43)}
+          \* lo = 4 / 5: the valid_address flag on an indirect ([v]) and on a deferred ([[v]]) numeric operand
+          \cup {S("zone", 8, k, None, v, 0, 0, FALSE, 4, 40) : k \in {4, 5}, v \in (0..7 \cup 37..43)}
 ScSlice == {S("slice", 8, None, None, v, a, 3, FALSE, 0, 65535) : a \in {250, 253, 254, 255, 256, 300}, v \in (Near(256, 8) \cup Near(512, 3) \cup {0, 255, 300, 767})}
            \cup {S("slice", 4, None, None, v, a, 2, FALSE, 0, 65535) : a \in {14, 15, 16, 31, 33}, v \in 0..50}
 ScQuick == ScWidth({1, 2, 3, 4, 5, 7, 8, 12}) \cup ScMinMax \cup ScRel \cup ScEnum \cup ScZone \cup ScSlice
